@@ -64,7 +64,7 @@ def extract(run, n_wit, upto=None, frm=0):
     return items, ok
 
 
-def judge(run, items, starting_epoch, epochs, N, pos_bs, preset=False, flag_after=None, check_R=True):
+def judge(run, items, starting_epoch, epochs, N, pos_bs, preset=False, flag_after=None, check_R=True, digest_before=None, digest_after=None):
     nb = ceil(N / pos_bs)
     evs = [(i, it) for i, it in enumerate(items) if it[0] == "ev"]
     stops = [(i, it) for i, it in enumerate(items) if it[0] == "stop"]
@@ -188,6 +188,11 @@ def judge(run, items, starting_epoch, epochs, N, pos_bs, preset=False, flag_afte
             run.violate("P", f"{ctx}: stop request did not persist until fit returned", how=how, last=lk)
 
     # ---- R: parameters change only between BS and its BE ---------------------
+    if check_R and evs:
+        if digest_before is not None and evs[0][1][3] is not None and evs[0][1][3] != digest_before:
+            run.violate("R", f"parameters changed between the call of fit and {evs[0][1][1]}{evs[0][1][2]}", frm="call", to=evs[0][1][1])
+        if digest_after is not None and evs[-1][1][3] is not None and evs[-1][1][3] != digest_after:
+            run.violate("R", f"parameters changed between {evs[-1][1][1]}{evs[-1][1][2]} and the return of fit", frm=evs[-1][1][1], to="return")
     if check_R:
         for (i0, a), (i1, b) in zip(evs, evs[1:]):
             if a[3] is None or b[3] is None:
